@@ -227,9 +227,30 @@ EndStep(file, st, inherit) ==
 
 RowsOf(feed, file) == IF file \in DOMAIN feed THEN feed[file] ELSE <<>>
 
+(* ---------------- file level: required files, required columns ---------------- *)
+RequiredCols(file) ==
+    CASE file = "agency.txt" -> {"agency_name", "agency_url", "agency_timezone"}
+      [] file = "routes.txt" -> {"route_id", "route_type"}
+      [] file = "stops.txt" -> {"stop_id"}
+      [] file = "transfers.txt" -> {"from_stop_id", "to_stop_id"}
+      [] file = "calendar.txt" -> {"service_id", "start_date", "end_date"} \cup Range(Days)
+      [] file = "calendar_dates.txt" -> {"service_id", "date", "exception_type"}
+      [] file = "shapes.txt" -> {"shape_id", "shape_pt_lat", "shape_pt_lon", "shape_pt_sequence"}
+      [] file = "trips.txt" -> {"route_id", "service_id", "trip_id"}
+      [] file = "frequencies.txt" -> {"trip_id", "start_time", "end_time", "headway_secs"}
+      [] file = "stop_times.txt" -> {"stop_id", "stop_sequence", "trip_id"}
+(* the header of a file is the union of its rows' columns (a table without rows is written with all required columns) *)
+HeaderOf(feed, file) == IF RowsOf(feed, file) = <<>> THEN RequiredCols(file) ELSE UNION {DOMAIN RowsOf(feed, file)[i] : i \in DOMAIN RowsOf(feed, file)}
+MissingCols(feed, file) == RequiredCols(file) \ HeaderOf(feed, file)
+(* ParseStatic fails when a required file is not in the archive; everything else yields a result *)
+Outcome(feed) == IF RequiredFiles \subseteq DOMAIN feed THEN "result" ELSE "error"
+
+(* A file whose header lacks a required column is not read at all; for agency.txt that is reported as a warning. *)
 ParseFile(st, feed, file, inherit) ==
     LET rows == RowsOf(feed, file)
-        st1 == FoldL(LAMBDA acc, i : RowStep(file, acc, rows[i], i), st, [i \in DOMAIN rows |-> i])
+        st1 == IF MissingCols(feed, file) # {}
+               THEN IF file = "agency.txt" THEN [st EXCEPT !.warnings = Append(@, [file |-> "agency.txt:warnings.MissingColumns", row |-> 0])] ELSE st
+               ELSE FoldL(LAMBDA acc, i : RowStep(file, acc, rows[i], i), st, [i \in DOMAIN rows |-> i])
     IN EndStep(file, st1, inherit)
 ParseFeed(feed, inherit) == FoldL(LAMBDA acc, f : ParseFile(acc, feed, f, inherit), EmptySt, Files)
 
